@@ -47,9 +47,15 @@ def env():
         for n, ap in zip("fgh", apps):
             ap.func._display_name = n
             fs.append(ap.func)
+        # a vector function of TWO arguments whose parameter t is the second one: w(k, t)
+        w2 = V.VectorFunction(arguments=(k, t))
+        w2app = w2(k, t)
+        w2._display_name = "w"
+        fs.append(w2)
+        apps = apps + [w2app]
         _KEEP.extend(apps)
         s = sp.Function("s", real=True)
-        _ENV = dict(V=V, vs=vs, k=k, l=l, t=t, fs=fs, s=s)
+        _ENV = dict(V=V, vs=vs, k=k, l=l, t=t, fs=fs, fapps=apps, s=s)
     return _ENV
 
 
@@ -97,7 +103,7 @@ def build(sh, evaluate=None):
     if op == "v":
         return E["vs"][sh[1]]
     if op == "f":
-        return E["fs"][sh[1]](E["t"])
+        return E["fapps"][sh[1]]
     if op in ("sc", "scr"):
         # the coefficient is a scalar symbol / number, or itself a scalar SHAPE (dot, norm, mixed product ...); "scr" writes the
         # product as vector * coefficient (products of vectors are not known to commute, so SymPy keeps the written order)
@@ -133,7 +139,7 @@ def meaning(sh, enc, want_d=False):
     if op == "v":
         return enc.vec(E["vs"][sh[1]]), ZERO3
     if op == "f":
-        f = E["fs"][sh[1]](E["t"])
+        f = E["fapps"][sh[1]]
         return enc.vec(f), (enc.vec(V.VectorDerivative(f, E["t"])) if want_d else ZERO3)
     if op == "k":
         so = scalar_obj(sh[1])
@@ -187,7 +193,7 @@ def num_meaning(sh, nv: NumVec, want_d=False):
     if op == "v":
         return nv.vec(E["vs"][sh[1]]), Z
     if op == "f":
-        f = E["fs"][sh[1]](E["t"])
+        f = E["fapps"][sh[1]]
         return nv.vec(f), (nv.vec(V.VectorDerivative(f, E["t"])) if want_d else Z)
     if op == "k":
         so = scalar_obj(sh[1])
@@ -232,7 +238,7 @@ def shape_str(sh):
     if op == "v":
         return "abcd"[sh[1]]
     if op == "f":
-        return "fgh"[sh[1]] + "(t)"
+        return "fghw"[sh[1]] + ("(t)" if sh[1] < 3 else "(k,t)")
     if op == "k":
         return str(sh[1]) if sh[1] != "s" else "s(t)"
     if op == "sc":
@@ -286,6 +292,8 @@ def check_shape(item):
             res = with_timeout(build, BUILD_TIMEOUT, sh)
         elif mode == "doit":
             res = with_timeout(lambda: build(sh, False).doit(), BUILD_TIMEOUT)
+        elif mode == "diffu":        # the written (unevaluated) tree differentiated as it stands
+            res = with_timeout(lambda: build(sh, False).diff(env()["t"]), BUILD_TIMEOUT)
         else:
             res = with_timeout(lambda: build(sh).diff(env()["t"]), BUILD_TIMEOUT)
     except ItemTimeout:
@@ -298,7 +306,7 @@ def check_shape(item):
         out.update(verdict="candidate", why=f"raised {type(e).__name__}: {e}", assign={"vec": {}, "fn": {}, "scal": {}})
         return out
     enc = VecEnc()
-    want_d = mode == "diff"
+    want_d = mode in ("diff", "diffu")
     try:
         mv, md = meaning(sh, enc, want_d)
         target = md if want_d else mv
@@ -331,6 +339,109 @@ def check_shape(item):
     return out
 
 
+def higher_cases():
+    """[(label, build -> library expression, oracle(D) -> components)] for second and third derivatives; D(i, n) is the n-th derivative of
+    the i-th vector function (n = 0: the function), A(i) the i-th constant vector; Leibniz' rule written out"""
+    E = env()
+    V, t = E["V"], E["t"]
+    f, g = E["fapps"][0], E["fapps"][1]
+    a, b = E["vs"][0], E["vs"][1]
+    add3 = lambda *vs: tuple(sum(v[i] for v in vs) for i in range(3))
+    sc3 = lambda k, v: tuple(k * c for c in v)
+    cases = []
+    for n in (2, 3):
+        binom = {2: (1, 2, 1), 3: (1, 3, 3, 1)}[n]
+        cases += [
+            (f"d^{n}/dt^{n} cross(f, a)", lambda n=n: V.VectorCross(f, a).diff(t, n), lambda D, A, n=n: cross3(D(0, n), A(0)), False),
+            (f"d^{n}/dt^{n} cross(a, f)", lambda n=n: V.VectorCross(a, f).diff(t, n), lambda D, A, n=n: cross3(A(0), D(0, n)), False),
+            (f"d^{n}/dt^{n} cross(f, g)", lambda n=n: V.VectorCross(f, g).diff(t, n),
+             lambda D, A, n=n, binom=binom: add3(*[sc3(binom[j], cross3(D(0, n - j), D(1, j))) for j in range(n + 1)]), False),
+            (f"d^{n}/dt^{n} dot(f, a)", lambda n=n: V.VectorDot(f, a).diff(t, n), lambda D, A, n=n: dot3(D(0, n), A(0)), True),
+            (f"d^{n}/dt^{n} dot(f, g)", lambda n=n: V.VectorDot(f, g).diff(t, n),
+             lambda D, A, n=n, binom=binom: sum(binom[j] * dot3(D(0, n - j), D(1, j)) for j in range(n + 1)), True),
+            (f"d^{n}/dt^{n} mixed(f, a, b)", lambda n=n: V.VectorMixedProduct(f, a, b).diff(t, n), lambda D, A, n=n: dot3(D(0, n), cross3(A(0), A(1))), True),
+            (f"d^{n}/dt^{n} mixed(a, f, g)", lambda n=n: V.VectorMixedProduct(a, f, g).diff(t, n),
+             lambda D, A, n=n, binom=binom: sum(binom[j] * dot3(A(0), cross3(D(0, n - j), D(1, j))) for j in range(n + 1)), True),
+            (f"d^{n}/dt^{n} cross(cross(f, a), b)", lambda n=n: V.VectorCross(V.VectorCross(f, a), b).diff(t, n), lambda D, A, n=n: cross3(cross3(D(0, n), A(0)), A(1)), False),
+            (f"d/dt of d^{n-1}/dt^{n-1} cross(f, a)", lambda n=n: V.VectorCross(f, a).diff(t, n - 1).diff(t), lambda D, A, n=n: cross3(D(0, n), A(0)), False),
+        ]
+    return cases
+
+
+def check_higher(idx):
+    import time
+    E = env()
+    V, t = E["V"], E["t"]
+    label, mk, oracle, scalar = higher_cases()[idx]
+    out = {"name": "higher:" + label, "shape": idx, "mode": "higher", "queries": 0, "solver_s": 0.0}
+    try:
+        res = with_timeout(mk, BUILD_TIMEOUT)
+    except ItemTimeout:
+        out.update(verdict="candidate", why="non-termination (20 s)")
+        return out
+    except Exception as e:
+        out.update(verdict="candidate", why=f"raised {type(e).__name__}: {e}")
+        return out
+    enc = VecEnc()
+    D = lambda i, n: enc.vec(E["fapps"][i] if n == 0 else V.VectorDerivative(E["fapps"][i], (t, n)))
+    A = lambda i: enc.vec(E["vs"][i])
+    try:
+        want = oracle(D, A)
+        got, want = ([enc.tr(res)], [want]) if scalar else (list(enc.vec(res)), list(want))
+    except Unencodable as e:
+        out.update(verdict="unencoded", why=str(e), result=str(res)[:200])
+        return out
+    s = z3.Solver()
+    s.set("timeout", TIMEOUT_MS)
+    for c in enc.assume + enc.side + enc.domain:
+        s.add(c)
+    s.add(z3.Or([g_ != w_ for g_, w_ in zip(got, want)]))
+    t0 = time.time()
+    r = str(s.check())
+    out["queries"], out["solver_s"], out["result"] = 1, time.time() - t0, str(res)[:160]
+    if r == "unsat":
+        out["verdict"] = "discharged"
+    elif r == "sat":
+        out.update(verdict="candidate", why="value differs")
+    else:
+        out.update(verdict="inconclusive", why="unknown")
+    return out
+
+
+REPLAY_HIGHER = r'''
+import sys, random
+import sympy as sp
+from checks import c14
+from vlib.vecsem import NumVec
+idx = {idx!r}
+E = c14.env()
+label, mk, oracle, scalar = c14.higher_cases()[idx]
+try:
+    from vlib.par import with_timeout, ItemTimeout
+    res = with_timeout(mk, 60)
+except ItemTimeout:
+    print("REPRODUCED:", label, "does not terminate within 60 s"); sys.exit(1)
+except Exception as e:
+    print("REPRODUCED:", label, "raised", type(e).__name__, e); sys.exit(1)
+random.seed(5)
+rnd3 = lambda: [sp.Rational(random.randint(-4, 4), random.randint(1, 3)) for _ in range(3)]
+va = {{id(v): rnd3() for v in E["vs"]}}
+fa = {{}}
+for f in E["fs"]:
+    fa[("vf", str(f.name))] = rnd3(); fa[("vd", str(f.name))] = rnd3()
+    for n in (1, 2, 3, 4): fa[("vd", str(f.name), n)] = rnd3()
+nv = NumVec(va, {{"t": sp.Rational(1, 3)}}, fa)
+names = [str(f.name) for f in E["fs"]]
+D = lambda i, n: tuple(fa[("vf", names[i])] if n == 0 else fa[("vd", names[i], n)])
+A = lambda i: tuple(va[id(E["vs"][i])])
+want = oracle(D, A)
+got, want = ([nv.scal(res)], [want]) if scalar else (list(nv.vec(res)), list(want))
+print(label); print("library result:", res); print("value of result:", got, " Leibniz:", want)
+if any(abs(sp.N(g - w, 30)) > 1e-15 for g, w in zip(got, want)):
+    print("REPRODUCED"); sys.exit(1)
+'''
+
+
 REPLAY = r'''
 import sys
 import sympy as sp
@@ -344,6 +455,7 @@ try:
     from vlib.par import with_timeout, ItemTimeout
     if mode == "auto": res = with_timeout(c14.build, 60, sh)
     elif mode == "doit": res = with_timeout(lambda: c14.build(sh, False).doit(), 60)
+    elif mode == "diffu": res = with_timeout(lambda: c14.build(sh, False).diff(E["t"]), 60)
     else: res = with_timeout(lambda: c14.build(sh).diff(E["t"]), 60)
 except ItemTimeout:
     print("REPRODUCED: evaluation of", c14.shape_str(sh), "does not terminate within 60 s"); sys.exit(1)
@@ -365,8 +477,8 @@ fa[("sf", "s")] = sp.Rational(assign["scal"].get("sf", "3/2"))
 fa[("sd", "s")] = sp.Rational(assign["scal"].get("sd", "-2/3"))
 sa = {{"k": sp.Rational(assign["scal"].get("k", "5/3")), "l": sp.Rational(assign["scal"].get("l", "-7/2")), "t": sp.Rational(assign["scal"].get("t", "1/3"))}}
 nv = NumVec(va, sa, fa)
-mv, md = c14.num_meaning(sh, nv, mode == "diff")
-want = md if mode == "diff" else mv
+mv, md = c14.num_meaning(sh, nv, mode in ("diff", "diffu"))
+want = md if mode in ("diff", "diffu") else mv
 if c14.is_scalar_shape(sh):
     got = [nv.scal(res)]; want = [want]
 else:
@@ -452,6 +564,8 @@ def run(ctx):
     f0 = [("f", i) for i in range(3)]
     fl = f0 + [("v", 0)] + [("sc", "k", f0[0]), ("sc", "s", f0[0]), ("add", f0[0], f0[1]), ("sub", f0[1], ("v", 0)),
                              ("cross", f0[0], f0[1]), ("cross", ("v", 0), f0[1]), ("sc", "s", ("v", 1)), ("cross", f0[0], f0[0])]
+    w2s = ("f", 3)
+    fl = fl + [w2s, ("sc", "k", w2s), ("cross", w2s, f0[0]), ("add", w2s, f0[1])]
     dsh = [("dot", u, v) for u, v in itertools.product(fl, repeat=2)] + [("cross", u, v) for u, v in itertools.product(fl, repeat=2)] + \
           [("norm", u) for u in fl] + list(fl)
     if thorough:
@@ -462,6 +576,9 @@ def run(ctx):
         dsh += [("mixed", u, v, w) for u, v, w in itertools.product(f0 + [("v", 0)], repeat=3)]
         dsh += [("mixed", ("cross", f0[0], f0[1]), f0[2], ("v", 0)), ("mixed", ("sc", "s", f0[0]), f0[1], f0[2])]
     items += [(sh, "diff") for sh in dsh]
+    # the same derivative taken of the tree as written (evaluate=False): products whose dependence on t sits in a scalar coefficient or
+    # in a nested product
+    items += [(sh, "diffu") for sh in dsh if sh[0] in ("dot", "cross", "mixed", "norm")]
 
     ctx.explanation = (
         "Engine S. Programs = expression shapes from the grammar V ::= v | k*V | V+V | V-V | cross(V,V); "
@@ -500,7 +617,21 @@ def run(ctx):
             ctx.ob(r["name"], v, r.get("why"))
         else:
             cands.append(r)
-    ctx.extra["programs"] = len(items)
+    # second and third derivatives (Leibniz' rule written out; derivatives of every order are independent free vectors)
+    nh = len(higher_cases())
+    for r in pmap(check_higher, list(range(nh))):
+        if "error" in r:
+            ctx.harness_errors.append(r["error"][-300:])
+            continue
+        ctx.add_solver(r.get("queries", 0), r.get("solver_s", 0.0))
+        n_by["higher"] = n_by.get("higher", 0) + 1
+        if r["verdict"] == "discharged":
+            ctx.ob(r["name"], "discharged")
+        elif r["verdict"] in ("unencoded", "inconclusive"):
+            ctx.ob(r["name"], r["verdict"], r.get("why"))
+        else:
+            ctx.violation("C14:" + r["name"], f"{r['name']} -> {r.get('result')}: {r['why']}", REPLAY_HIGHER.format(idx=r["shape"]))
+    ctx.extra["programs"] = len(items) + nh
     ctx.extra["shapes_by_mode"] = n_by
     # group candidate violations by root cause key: the rule that fired = (mode, top op, arg ops)
     seen = {}
